@@ -7,7 +7,7 @@ CONSTANTS
   FrameChunks = 0
   MaxMig = 0
   Serial = FALSE
-INVARIANTS ContentsCopied NothingElseChanged CompleteOnce OneAtATime RoutedBack
+INVARIANTS TContentsCopied TNothingElseChanged CompleteOnce OneAtATime RoutedBack
 CONSTRAINT Mark
 POSTCONDITION Accepted
 CHECK_DEADLOCK FALSE
